@@ -76,11 +76,41 @@ CastleWorld(two) ==
       ok == {p \in ps : Valid(p)}
   IN ok \cup {Mirror(p) : p \in ok}
 
+\* pin:    the mover's king anywhere, one own man of any kind on one of the eight lines through the king and
+\*         an enemy slider of any kind further out on the same line (a true pin when the slider moves along
+\*         that line, a look-alike otherwise): moves of a pinned man along / off the pin line, pawn pushes,
+\*         captures of the pinner with and without promotion (all four pieces).  `chk` adds one more enemy
+\*         piece that may give check (pin and check at once), for a few king squares.
+PinWorld(chk) ==
+  LET ks == {q \in (IF chk THEN {0, 4, 27, 31, 60} ELSE Squares) : q % NShards = Shard}
+      quads == {q \in ks \X QueenD \X (1..7) \X (1..7) \X {0, 63} : q[3] < q[4] /\ q[4] <= Len(Ray[q[1]][q[2]])
+                                                                        /\ (chk => q[4] <= q[3] + 2 /\ q[3] <= 2)}
+      Base(q, x, sl) == {<<q[1], 6>>, <<q[5], 12>>, <<Ray[q[1]][q[2]][q[3]], x>>, <<Ray[q[1]][q[2]][q[4]], sl>>}
+      plain == UNION {{ Base(q, x, sl) : x \in {1, 2, 3, 4, 5}, sl \in {9, 10, 11} } : q \in quads}
+      withChk == UNION {{ Base(q, x, sl) \cup {<<c, ck>>} : x \in {1, 2, 3, 4, 5}, sl \in {9, 10, 11},
+                                                          c \in KingLines(q[1]) \cup KnightT[q[1]], ck \in {8, 9, 10} } : q \in quads}
+      sets == IF chk THEN withChk ELSE plain
+      ps == {[bd |-> Put(y), stm |-> "w", cr |-> {}, ep |-> -1] : y \in {z \in sets : DistinctSquares(z)}}
+      ok == {q \in ps : Valid(q)}
+  IN ok \cup {Mirror(q) : q \in ok}
+
+\* chk:    the mover's king anywhere and ONE enemy man of every kind on every other square (pawns on their
+\*         seventh rank included): the check test and the evasions, for every geometry.
+CheckWorld ==
+  LET ks == {q \in Squares : q % NShards = Shard}
+      sets == {{<<k, 6>>, <<kb, 12>>, <<t, x>>} : k \in ks, kb \in {0, 63}, t \in Squares, x \in {7, 8, 9, 10, 11}}
+      ps == {[bd |-> Put(y), stm |-> "w", cr |-> {}, ep |-> -1] : y \in {z \in sets : DistinctSquares(z)}}
+      ok == {q \in ps : Valid(q)}
+  IN ok \cup {Mirror(q) : q \in ok}
+
 World == CASE SeedMode = "ep1" -> EpWorld(FALSE, TRUE)
            [] SeedMode = "ep2" -> EpWorld(TRUE, FALSE)
            [] SeedMode = "ep2full" -> EpWorld(TRUE, TRUE)
            [] SeedMode = "castle1" -> CastleWorld(FALSE)
            [] SeedMode = "castle2" -> CastleWorld(TRUE)
+           [] SeedMode = "chk1" -> CheckWorld
+           [] SeedMode = "pin1" -> PinWorld(FALSE)
+           [] SeedMode = "pin2" -> PinWorld(TRUE)
            [] OTHER -> {}
 
 Init == IF SeedMode = "file"
